@@ -11,7 +11,7 @@ package common
 
 //@ -- Read(b): all-or-error. A short read returns a NON-EOF error and leaves the reader drained (this is what F3 is about).
 //@ func (dec *Decoder) Read
-//@   property C07
+//@   property C07, C06
 //@   requires DecOK(dec)
 //@   modifies *dec.buf, b[..]
 //@   ensures [len] Len(dec) == old(Len(dec)) && Pos(dec) <= Len(dec)
@@ -20,7 +20,7 @@ package common
 //@   ensures [short] len(b) > old(Rest(dec)) && old(Rest(dec)) > 0 ==> result != nil && result != io.EOF && Pos(dec) == Len(dec)
 
 //@ func (dec *Decoder) ReadUint64
-//@   property C07
+//@   property C07, C06
 //@   requires DecOK(dec)
 //@   modifies *dec.buf
 //@   ensures [len] Len(dec) == old(Len(dec)) && Pos(dec) <= Len(dec)
@@ -29,7 +29,7 @@ package common
 //@   ensures [short] 0 < old(Rest(dec)) && old(Rest(dec)) < 8 ==> err != nil && err != io.EOF && result0 == 0 && Pos(dec) == Len(dec)
 
 //@ func (dec *Decoder) ReadUint16
-//@   property C07
+//@   property C07, C06
 //@   requires DecOK(dec)
 //@   modifies *dec.buf
 //@   ensures [len] Len(dec) == old(Len(dec)) && Pos(dec) <= Len(dec)
@@ -37,7 +37,7 @@ package common
 //@   ensures [fail] 2 > old(Rest(dec)) ==> err != nil
 
 //@ func (dec *Decoder) ReadInt
-//@   property C07
+//@   property C07, C06
 //@   requires DecOK(dec)
 //@   modifies *dec.buf
 //@   ensures [len] Len(dec) == old(Len(dec)) && Pos(dec) <= Len(dec)
